@@ -13,7 +13,8 @@ import (
 
 func init() {
 	register("C02", &propCheck{Run: checkC02,
-		Explain: "C02.1 visibility filter: every registration copied into the map handed to transports is guarded by its own Valid flag and comes from the per-phantom map of the requested address; " +
+		Explain: "C02.8 (shared with C08.3) the sweep examines every timeout record on every pass and selects exactly those the expiry condition names, so no expired registration is left behind to keep matching; " +
+			"C02.1 visibility filter: every registration copied into the map handed to transports is guarded by its own Valid flag and comes from the per-phantom map of the requested address; " +
 			"C02.2 who-hands-out: the manager's GetRegistrations returns only what the filter produced; " +
 			"C02.3 phantom scoping: every GetRegistrations call in a transport (and in its helpers, through their static call sites) is passed the connection's phantom parameter, and the handler passes the connection's original destination; " +
 			"C02.4 identity checks dominate success: min returns the map element under the presented tag with the found-flag true; prefix returns only under transport-type == Prefix and, for typed params, prefix-id == the matched prefix, keyed by the revealed tag; obfs4 returns the registration whose keys produced the matching mark; " +
@@ -317,6 +318,8 @@ func checkC02(c *Ctx) {
 
 	// ---- C02.7 an expired registration is really gone
 	checkRemovalUnconditional(c, "C02.7")
+	// ---- C02.8 the sweep finds every expired registration (shared with C08.3)
+	checkExpirySelection(c, "C02.8", 2)
 
 	// ---- C02.6 labels
 	r.Rule("C02.6", "identifier labels are pairwise distinct and keyed by the shared secret", 3)
